@@ -33,5 +33,6 @@ Sid2 == {"", "s1", "s8"}      \* empty, 32 bytes, 8 bytes (a pre-TLS 1.3 session
 Sid1 == {"s1"}
 
 Emit == Done => PrintT(<<"CASE", ToJson([onm |-> onm, inm |-> inm, run |-> run, pad |-> pad, sid |-> sid, ck |-> ck, suite |-> suite, op |-> op,
-                                          keys |-> keynames, hello |-> hello, res |-> res, holds |-> Holds])>>)
+                                          keys |-> keynames, hello |-> hello, res |-> res, holds |-> Holds,
+                                          classes |-> IF res.kind = "abort" /\ op \in Malformed THEN {"decode_error", "illegal_parameter"} ELSE {}])>>)
 =============================================================================
